@@ -111,7 +111,7 @@ def controlled_schedule(typed, opname, out, wait=WAIT, mode="sentinel"):
             ev("A.rel")
 
     def thread_b():
-        entered.wait(timeout=5)
+        entered.wait(timeout=15)
         ev(f"B.start({opname})")
         try:
             res["snapshot"] = ops[opname]()
@@ -126,8 +126,8 @@ def controlled_schedule(typed, opname, out, wait=WAIT, mode="sentinel"):
     tb = threading.Thread(target=thread_b, daemon=True)
     ta.start()
     tb.start()
-    ta.join(timeout=wait + 3)
-    tb.join(timeout=wait + 3)
+    ta.join(timeout=wait + 12)
+    tb.join(timeout=wait + 12)
     hung = ta.is_alive() or tb.is_alive()
     snap = res.get("snapshot")
     text = json.dumps(snap, default=str) if snap is not None else ""
@@ -207,7 +207,7 @@ def reader_first_schedule(typed, opname, wait=WAIT):
         ev(f"B.done({opname})")
 
     def thread_a():
-        mid.wait(timeout=5)
+        mid.wait(timeout=15)
         with tree:
             ev("A.acq")
             tree.add(("S", "first"), before=True, **({"kind": "sentinel-first"} if typed else {}))
@@ -220,8 +220,8 @@ def reader_first_schedule(typed, opname, wait=WAIT):
     ta = threading.Thread(target=thread_a, daemon=True)
     tb.start()
     ta.start()
-    tb.join(timeout=5)
-    ta.join(timeout=5)
+    tb.join(timeout=15)
+    ta.join(timeout=15)
     problems = []
     if ta.is_alive() or tb.is_alive():
         problems.append("threads did not terminate (deadlock)")
@@ -256,7 +256,7 @@ def reentrant(typed, out):
 
     th = threading.Thread(target=run, daemon=True)
     th.start()
-    th.join(timeout=4)
+    th.join(timeout=15)
     problems = []
     if th.is_alive():
         problems.append(f"nested use by the owning thread did not terminate after {done} (deadlock)")
@@ -299,8 +299,8 @@ def contended_reentrant(typed, opname, wait=0.25):
     ta, tb = threading.Thread(target=thread_a, daemon=True), threading.Thread(target=thread_b, daemon=True)
     ta.start()
     tb.start()
-    ta.join(timeout=4)
-    tb.join(timeout=4)
+    ta.join(timeout=15)
+    tb.join(timeout=15)
     problems = []
     if not state["a_nested"] and not state["err"]:
         problems.append(f"the owner's nested {opname} did not return while another thread was waiting in {opname} (deadlock)")
@@ -383,10 +383,10 @@ def stress(typed, n_writers, n_readers, rounds, out):
     for t in ws + rs:
         t.start()
     for t in ws:
-        t.join(timeout=20)
+        t.join(timeout=60)
     stop.set()
     for t in rs:
-        t.join(timeout=3)
+        t.join(timeout=20)
     sys.setswitchinterval(old_interval)
     if any(t.is_alive() for t in ws + rs):
         bad.append("stress threads did not terminate")
